@@ -220,6 +220,8 @@ def run_property(mod, tier, seed, replay=None):
     if leaf_fns:
         res.obligations.append(("string helpers re-translated from /repo (gen/c2lean.py -> Generated/LeafFns.lean): " + ", ".join(leaf_fns),
                                 not leaf_err, "; ".join(leaf_err)))
+        res.obligations.append(("the direct harness of the translated helpers (harness/leaf.c) builds against /repo",
+                                harness.get("leaf") is not None, (harness.get("leaf_error") or "")[-1500:]))
     res.obligations.append(("lake build " + " ".join(getattr(mod, "LEAN_MODULES", [])), ok, "" if ok else out[-1500:]))
     bad = lean_source_audit()
     res.obligations.append(("no sorry/admit/axiom/native_decide in Lean sources", not bad, "; ".join(bad)))
@@ -278,7 +280,7 @@ def run_property(mod, tier, seed, replay=None):
 
     if extra and not replay:
         extra(res, harness, tier, rng)
-    if leaf_fns and model_ok:
+    if leaf_fns and model_ok and harness.get("leaf") is not None:
         from checks import leaf
         if replay:
             leaf.replay(res, harness, replay)
